@@ -38,6 +38,7 @@ from hypothesis import strategies as st
 from . import usertypes
 from .codec import MySeq, MyMap
 
+TRACE: t.List[t.Optional[t.List[t.Any]]] = [None]   # when a list: union nodes record (node, chosen member index)
 KEEP: t.List[t.Any] = []   # every built type object stays alive (see DESIGN 3.2)
 
 
@@ -210,7 +211,7 @@ GOOD_PATTERNS = ['', 'abc', 'a+b*', '[a-z]{2,3}', r'(?P<x>\d+)', r'\w+\s', 'a|b'
 TRICKY: t.Dict[str, t.List[t.Any]] = {
     'pattern': ['(', 'a{4294967296}', '[', '*', '(?P<x', 'a{2,1}', '\\', '(?z)', 'a{4294967295,4294967296}'],
     'pattern-bytes': [b'(', b'a{4294967296}', b'[', b'*', b'\\'],
-    'Fraction': ['1/0', 'abc', '', '1/-2', '1//2', 'nan', 'inf', float('nan'), float('inf'), '1e999999'],
+    'Fraction': ['1/0', 'abc', '', '1/-2', '1//2', 'nan', 'inf', float('nan'), float('inf')],
     'Decimal': ['abc', '', '1e9999999', '--1', '1/2', 'sNaN'],
     'date': ['2023-13-45', '', '11:12:13', '2023-1-5', '20230105', '2023-W01-1', 'today'],
     'time': ['25:00:00', '', '2023-01-05', '11:12', 'T11', '11:12:13Z', '11:12:13+25:00'],
@@ -668,9 +669,6 @@ class Map(Node):
             return self.ctor(d)
         try:
             return Acc(mk())
-        except TypeError:
-            # an unhashable key image: the type is not well-formed for this value (DESIGN section 2)
-            return Unspec('key image is unhashable')
         except Exception as e:
             return Rej(f'constructor raised {type(e).__name__}')
 
@@ -770,6 +768,8 @@ class Union(Node):
         for (i, m) in enumerate(self.members):
             r = m.ref(v)
             if isinstance(r, Acc):
+                if TRACE[0] is not None:
+                    TRACE[0].append((self.render()[:60], i))
                 return r, i
             if isinstance(r, Unspec):
                 return r, None
@@ -984,11 +984,15 @@ class Vol(Node):
     def ref(self, v):
         r = self.elem.ref(v)
         if isinstance(r, Acc):
+            if TRACE[0] is not None:
+                TRACE[0].append((self.render()[:60], 0))
             return Acc(VolImage(True, r.image))
         if isinstance(r, Unspec):
             return r
         r2 = self.lst.ref(v)
         if isinstance(r2, Acc):
+            if TRACE[0] is not None:
+                TRACE[0].append((self.render()[:60], 1))
             return Acc(VolImage(False, r2.image))
         return r2
 
@@ -1110,3 +1114,23 @@ def top_specs(max_leaves: int = 4, classes: t.Optional[st.SearchStrategy[t.Any]]
         max_leaves=3,
     )
     return st.one_of(inner, inner, inner, inner, lit)
+
+
+def ref_traced(nd: Node, v: t.Any) -> t.Tuple[Verdict, t.List[t.Any]]:
+    """Reference verdict plus the sequence of (union node, chosen member) decisions taken on the accepting path."""
+    TRACE[0] = []
+    try:
+        r = nd.ref(v)
+        return r, sorted(TRACE[0])
+    finally:
+        TRACE[0] = None
+
+
+def plainify(v: t.Any, in_key: bool = False) -> t.Any:
+    """Exotic interchange containers -> plain list / dict (tuples inside mapping keys, where hashability matters)."""
+    if is_map(v):
+        return {plainify(k, True): plainify(x) for (k, x) in v.items()}
+    if is_seq(v):
+        items = [plainify(x, in_key) for x in v]
+        return tuple(items) if in_key else items
+    return v
